@@ -5,6 +5,7 @@ package props
 import (
 	"bytes"
 	"encoding/json"
+	"fmt"
 	"net/url"
 	"strings"
 	"testing"
@@ -154,8 +155,46 @@ func oracleC03(c c03Case) (*vstat.Failure, bool) {
 	return f, acyclic
 }
 
+// c03Exhaustive runs the cut-point and meaning oracles over the whole family of small graphs without ids
+// (every digraph on <=N nodes x placement x entry kind x same/other document), this shard's share of it.
+func c03Exhaustive(t *testing.T, r *vstat.Recorder) {
+	maxN := 2
+	if tier() == "thorough" {
+		maxN = 3
+	}
+	shard, nshards := shardInfo()
+	n := 0
+	gen.EnumerateSmall(maxN, false, func(idx int, s gen.SmallGraph) {
+		if idx%nshards != shard {
+			return
+		}
+		c := c03Case{Graph: s.Case(), Abs: idx%2 == 1}
+		f, _ := oracleC03(c)
+		if f.Empty() {
+			oracleMeaning(f, c.Graph, spec.ExpandOptions{AbsoluteCircularRef: c.Abs}, 1)
+		}
+		n++
+		cyclic := false
+		for i := 0; i < s.N; i++ {
+			cyclic = cyclic || s.OnCycle(i)
+		}
+		if cyclic || s.OtherDoc {
+			r.NonTrivial(mustJSON(s), nil)
+		}
+		if n%400 == 1 {
+			r.Sample(s)
+		}
+		verdict(t, "C03", "small", c, f)
+	})
+	r.EvalN(n)
+	r.Count("exhaustive small graphs (this run, all shards)", n)
+	r.Label(fmt.Sprintf("exhaustive: digraphs on <=%d nodes", maxN))
+	r.SetExhaustive(true)
+}
+
 func TestC03(t *testing.T) {
 	r := rec("C03")
+	c03Exhaustive(t, r)
 	o := gen.DefaultGraphOpts()
 	o.DagPct = 50
 	o.Payloads = true
